@@ -71,6 +71,7 @@ func checkC16(w *World, r *Report) {
 	r.Rule("R16.2", "ordered failover: range in order, continue on error, return on first success", 1)
 	r.Rule("R16.3", "shared connection/session written only under the mutex; reuse guard", 4)
 	r.Rule("R16.4", "a timeout mechanism precedes the client handshake", 5)
+	r.Rule("R16.5", "upstream attempts do not share mutable TLS configuration", 3)
 
 	// ---- R16.1
 	hc := w.Method("internal/client/listener", "AbstractListener", "HandleConnection")
@@ -109,6 +110,10 @@ func checkC16(w *World, r *Report) {
 
 	// ---- R16.4
 	c16Timeout(w, r)
+
+	// ---- R16.5: one upstream attempt must not leave state behind that the next attempt reads: the TLS
+	// configuration each attempt mutates (ServerName, InsecureSkipVerify) is a fresh object per call
+	c05FreshConfig(w, r, "R16.5")
 }
 
 func c16Failover(w *World, r *Report, openM *types.Func) {
